@@ -219,6 +219,43 @@ func VerifIntrospectionAnswers() {
 	verifReach("type entry checked")
 }
 
+// VerifIntrospectionSiblings: the same member selected twice under aliases with different arguments
+func VerifIntrospectionSiblings() {
+	vK = 1
+	f := vNewFed(&vWorld{ents: map[string]vEnt{}, roots: map[string]interface{}{}}, nil, vS16A, vS16B)
+	order := verifChoice("order", 2)
+	viaVar := verifChoice("viavariable", 2) == 1
+	arg := "includeDeprecated: true"
+	var vars map[string]interface{}
+	hdr := ""
+	if viaVar {
+		arg = "includeDeprecated: $d"
+		vars = map[string]interface{}{"d": true}
+		hdr = "query($d: Boolean) "
+	}
+	sel := "all: fields(" + arg + ") { name } current: fields { name }"
+	esel := "all: enumValues(" + arg + ") { name } current: enumValues { name }"
+	if order == 1 {
+		sel = "current: fields { name } all: fields(" + arg + ") { name }"
+		esel = "current: enumValues { name } all: enumValues(" + arg + ") { name }"
+	}
+	_, out := f.vPost(hdr+`{ cat: __type(name: "Cat") { `+sel+` } mood: __type(name: "Mood") { `+esel+` } }`, vars, "")
+	verifAssert(out["errors"] == nil, "the introspection operation is answered without errors")
+	d, _ := out["data"].(map[string]interface{})
+	cat, _ := d["cat"].(map[string]interface{})
+	mood, _ := d["mood"].(map[string]interface{})
+	verifAssert(cat != nil && mood != nil, "both types are found")
+	if cat == nil || mood == nil {
+		return
+	}
+	verifAssert(vFind(cat["all"], "old") != nil, "includeDeprecated: true lists deprecated fields")
+	verifAssert(vFind(cat["current"], "old") == nil, "a selection without includeDeprecated hides deprecated fields, whatever its siblings ask for")
+	verifAssert(vFind(cat["current"], "name") != nil, "current fields are listed")
+	verifAssert(vFind(mood["all"], "GRUMPY") != nil, "includeDeprecated: true lists deprecated enum values")
+	verifAssert(vFind(mood["current"], "GRUMPY") == nil, "a selection without includeDeprecated hides deprecated enum values, whatever its siblings ask for")
+	verifReach("sibling selections checked")
+}
+
 // VerifIntrospectionRoundTrip: another gateway can rebuild an equivalent schema from the standard query
 func VerifIntrospectionRoundTrip() {
 	vK = 1
